@@ -64,6 +64,13 @@ func checkC09(e *Env) {
 				emit(&Item{Op: plan.Op{Fn: "enc", E: hx(r.Bytes(l)), L: lg}, Exp: c09exp{fn: "enc", length: l, lang: lg}})
 			}
 		}
+		// slices whose capacity differs from their length (a check on cap() would be wrong)
+		for l := 0; l <= 40; l++ {
+			for _, extra := range []int{1, 2, 3, 4, 8, 12, 16} {
+				op := plan.Op{Fn: "enc", E: hx(r.Bytes(l)), L: int64(l % ref.NLang), Cap: extra}
+				emit(&Item{Op: op, Exp: c09exp{fn: "enc", length: l, lang: op.L}})
+			}
+		}
 		big := []int{1 << 14, 1<<16 - 4, 1 << 16, 1<<16 + 16, 1<<16 + 20, 1<<16 + 24, 1<<16 + 28, 1<<16 + 32, 1<<16 + 36, 2<<16 + 16, 1<<16 + 256 + 32, 1<<20 + 16, 1<<20 + 32, 1 << 20}
 		for k := 4; k < 64; k++ { // lengths congruent to valid ones modulo 2^8
 			big = append(big, k<<8+16, k<<8+20, k<<8+24, k<<8+28, k<<8+32)
